@@ -4,7 +4,7 @@
     used, what Open returned); the model has to reproduce the packet bytes, the arguments
     the implementation passed to Open, and the result. *)
 From Coq Require Import List ZArith Bool String.
-From V Require Import Lib.Corr Lib.Hex Gen.Params PktProt.PktNum PktProt.Protect PktProt.ProtectPack.
+From V Require Import Lib.Corr Lib.Hex Gen.Params Wire.Varint Wire.Headers PktProt.PktNum PktProt.Protect PktProt.ProtectPack PktProt.ProtectLong.
 Import ListNotations.
 Open Scope Z_scope.
 
@@ -15,6 +15,11 @@ Inductive case :=
            (seal_ct sample mask : string) (pnLen : Z) (packet : string)
     (* the packer's call site: pn length chosen by sentPacketHandler.PeekPacketNumber, packet built by
        appendShortHeaderPacket / appendLongHeaderPacket (padding, ACK | padding | frames) *)
+| LongDgCase (ty v : Z) (src dst tok : string) (pn largestAcked : Z) (ack frames : string) (extra : Z)
+             (seal_ct sample mask : string) (packet rest : string)
+             (hdrLen pktLen length : Z)
+    (* a long-header packet built by getLongHeader + appendLongHeaderPacket, followed by coalesced
+       bytes, cut out again by wire.ParsePacket: header fields, offset of the packet number, packet length *)
 | UnprotCase (long : bool) (hdrLen largest : Z) (data : string)
              (sample mask : string)                                  (* DecryptHeader oracle; "" if not called *)
              (open_call : option (Z * Z * string * string))          (* pn, kp, ad, ciphertext handed to Open *)
@@ -34,6 +39,7 @@ Definition cls_of (r : ures) : Z :=
 Inductive obs :=
 | ProtObs (packet : list Z)
 | PackObs (pnLen : Z) (packet : list Z)
+| LongDgObs (packet : option (list Z)) (parsed : Z * option header * list Z * list Z)
 | UnprotObs (call : option (Z * Z * list Z * list Z)) (cls : Z) (res : option (Z * Z * Z * Z * list Z)).
 
 Definition model_obs (c : case) : obs :=
@@ -51,6 +57,10 @@ Definition model_obs (c : case) : obs :=
       if (pn' =? pn) && (k' =? kp') && zeqb_list ad hdr && zeqb_list pt payload then hx ct else [] in
     PackObs (lenForHeader pn la)
             (pack seal (mask_tab (hx sample) (hx mask)) long tcode kp (hx mid) pn la (hx ack) (hx frames) (Z.to_nat extra))
+  | LongDgCase ty v src dst tok pn la ack frames extra ct sample mask packet rest _ _ _ =>
+    let seal := fun (_ _ : Z) (_ _ : list Z) => hx ct in
+    LongDgObs (pack_long_datagram seal (mask_tab (hx sample) (hx mask)) ty v (hx src) (hx dst) (hx tok) pn la (hx ack) (hx frames) (Z.to_nat extra))
+              (parse_packet (hx packet ++ hx rest))
   | UnprotCase long hdrLen largest data sample mask _ open_res _ _ =>
     match unprotect_pre (mask_tab (hx sample) (hx mask)) long (Z.to_nat hdrLen) largest (hx data) with
     | inl e => UnprotObs None (cls_of e) None
@@ -65,6 +75,11 @@ Definition check_case (c : case) : bool :=
   match c, model_obs c with
   | ProtCase _ _ _ _ _ _ _ _ _ packet, ProtObs p => zeqb_list p (hx packet)
   | PackCase _ _ _ _ _ _ _ _ _ _ _ _ pnLen packet, PackObs l p => (l =? pnLen) && zeqb_list p (hx packet)
+  | LongDgCase ty v src dst tok _ _ _ _ _ _ _ _ packet rest hdrLen pktLen len, LongDgObs (Some p) (0, Some h, pkt, r) =>
+    zeqb_list p (hx packet) && zeqb_list pkt (hx packet) && zeqb_list r (hx rest) &&
+    (hType h =? ty) && (hVersion h =? v) && zeqb_list (hSrc h) (hx src) && zeqb_list (hDst h) (hx dst) &&
+    zeqb_list (hToken h) (if ty =? H_PacketTypeInitial then hx tok else []) &&
+    (hParsedLen h =? hdrLen) && (zlen pkt =? pktLen) && (hLength h =? len)
   | UnprotCase _ _ _ _ _ _ call _ cls res, UnprotObs call' cls' res' =>
     (cls =? cls') &&
     match call, call' with
